@@ -420,7 +420,13 @@ def _run_query(build, q, r):
         hits = []
         for lid, (f, line, fn) in loops.items():
             fname = re.sub(r"^__CPROVER_file_local_\w+?_c_", "", lid.rsplit(".", 1)[0])
-            if re.search(freg, fname) and (sreg is None or re.search(sreg, src_line(f, line))):
+            if not re.search(freg, fname):
+                continue
+            if isinstance(sreg, int):
+                # ordinal of the loop inside its function (for loops whose source text is not unique)
+                if lid.rsplit(".", 1)[1] == str(sreg):
+                    hits.append(lid)
+            elif sreg is None or re.search(sreg, src_line(f, line)):
                 hits.append(lid)
         if not hits:
             if getattr(q, "loops_optional", False) and not capped:
